@@ -5,7 +5,7 @@
    (internal/filecache/file_cache.go) over a directory. Both are hand transcriptions tied to the code by
    the C13 correspondence run (every truncation length, version changes, crash points, concurrent writers).
    All codec theorems are universally quantified over the checksum function [crc]. *)
-From Verif Require Import Lib.GoInt Rt.CacheCodec Rt.CacheFs Proofs.CacheP.
+From Verif Require Import Lib.GoInt Rt.CacheCodec Rt.CacheFs Rt.CacheExt Proofs.CacheP Proofs.CacheExtP.
 Open Scope Z_scope.
 
 (* a well-formed record never hits a panic site of the serializer *)
@@ -109,3 +109,187 @@ Print Assumptions C13_add_failure_cleans.
 Theorem C13_crc32c_ok : crc_ok crc32c /\ crc32c [] = 0.
 Proof. exact (conj crc32c_ok crc32c_empty). Qed.
 Print Assumptions C13_crc32c_ok.
+
+(* ====================================================================================================
+   SECOND PART (Rt/CacheExt.v, Proofs/CacheExtP.v): the key, sessions over one directory, damaged entries, allocation.
+   [H] is the hash (sha256) as a function from byte strings to numbers; its injectivity is a HYPOTHESIS of the
+   theorems that need it, never an axiom. [fam n i]: the binary of the inputs i has n bytes and the CPU feature word
+   fits 64 bits - one binary under every setting is the case the property names. *)
+
+(* SETTINGS. Same binary, same CPU: two compilations get the same key exactly when their listener pattern (none at all,
+   or one flag per local function) and their ensure-termination flag are equal. Nothing else reaches the key. *)
+Theorem C13_key_separates_settings : forall H : list Z -> Z, (forall a b, H a = H b -> a = b) ->
+  forall w cpu ls1 t1 ls2 t2,
+  file_key H {| k_wasm := w; k_lis := ls1; k_term := t1; k_cpu := cpu |} =
+  file_key H {| k_wasm := w; k_lis := ls2; k_term := t2; k_cpu := cpu |} <-> ls1 = ls2 /\ t1 = t2.
+Proof. exact key_separates_settings. Qed.
+Print Assumptions C13_key_separates_settings.
+
+(* ... binaries of equal length: equal keys only for equal inputs (for binaries of different lengths the hashed string is
+   ambiguous as a string: CacheExtP.id_pre_not_injective) *)
+Theorem C13_key_injective : forall H : list Z -> Z, (forall a b, H a = H b -> a = b) ->
+  forall n i j, fam n i -> fam n j -> file_key H i = file_key H j -> i = j.
+Proof. exact file_key_inj. Qed.
+Print Assumptions C13_key_injective.
+
+(* ... another CPU feature word, another key *)
+Theorem C13_key_separates_cpu : forall H : list Z -> Z, (forall a b, H a = H b -> a = b) ->
+  forall w ls t c1 c2, in_u 64 c1 -> in_u 64 c2 ->
+  file_key H {| k_wasm := w; k_lis := ls; k_term := t; k_cpu := c1 |} =
+  file_key H {| k_wasm := w; k_lis := ls; k_term := t; k_cpu := c2 |} -> c1 = c2.
+Proof. exact key_separates_cpu. Qed.
+Print Assumptions C13_key_separates_cpu.
+
+(* two compilations share an entry (a final name) iff their inputs are equal *)
+Theorem C13_share_entry_iff_same_inputs : forall (H : list Z -> Z) n, (forall a b, H a = H b -> a = b) ->
+  forall i j, fam n i -> fam n j -> (Final (file_key H i) = Final (file_key H j) <-> i = j).
+Proof. exact share_iff_equal. Qed.
+Print Assumptions C13_share_entry_iff_same_inputs.
+
+(* WARM = COLD. A session = any sequence of CompileModule calls (any settings, any order, any repetition) over a
+   directory in which every final name holds the complete entry of the inputs with that key (e.g. the empty one): every
+   call yields - loaded or compiled - exactly the code the compiler generates for ITS OWN inputs, none reports an
+   error, and the directory stays well-formed. [gen] is the compiler as a function of the inputs. *)
+Theorem C13_warm_equals_cold : forall crc (H : list Z -> Z) v gen n,
+  crc_ok crc -> crc [] = 0 -> (forall a b, H a = H b -> a = b) -> (forall i, wf_entry v (gen i)) ->
+  forall is d, dir_ok crc H v gen n d -> Forall (fam n) is ->
+  map code_of (snd (session crc H v gen d is)) = map (fun i => Some (gen i)) is /\
+  dir_ok crc H v gen n (fst (session crc H v gen d is)).
+Proof. exact session_sound. Qed.
+Print Assumptions C13_warm_equals_cold.
+
+(* one call in detail: a load leaves the directory as it is, a compilation happens only when the key's name was absent,
+   afterwards the name holds the entry of these inputs, no other name changes *)
+Theorem C13_compile_step : forall crc (H : list Z -> Z) v gen n,
+  crc_ok crc -> crc [] = 0 -> (forall a b, H a = H b -> a = b) -> (forall i, wf_entry v (gen i)) ->
+  forall d i, dir_ok crc H v gen n d -> fam n i ->
+  let d' := fst (compile crc H v gen d i) in let r := snd (compile crc H v gen d i) in
+  code_of r = Some (gen i) /\
+  (forall cm, r = CLoaded cm -> d' = d /\ lookup (Final (file_key H i)) d <> None) /\
+  (forall cm, r = CCompiled cm -> lookup (Final (file_key H i)) d = None) /\
+  dir_ok crc H v gen n d' /\
+  (exists f, lookup (Final (file_key H i)) d' = Some f /\ entry_of crc v gen i = Some (f_data f)) /\
+  (forall m, m <> Final (file_key H i) -> lookup m d' = lookup m d).
+Proof. exact compile_sound. Qed.
+Print Assumptions C13_compile_step.
+
+(* ... with concurrent writers: whatever the interleaving of any number of Adds under any settings, crashes, injected
+   errors and deletions, what a reader finds under the key of its inputs deserializes to the compiler's code for
+   exactly these inputs: a warm entry is only ever loaded for an equal key, and an equal key means equal inputs *)
+Theorem C13_warm_hit_is_own_code : forall crc (H : list Z -> Z) v gen n (win : nat -> kin) (ents : nat -> bytes) d0 evs i f,
+  crc_ok crc -> crc [] = 0 -> (forall a b, H a = H b -> a = b) -> (forall j, wf_entry v (gen j)) ->
+  (forall w, fam n (win w) /\ entry_of crc v gen (win w) = Some (ents w)) ->
+  dir_ok crc H v gen n d0 -> fam n i ->
+  lookup (Final (file_key H i)) (s_dir (run (fun w => file_key H (win w)) ents d0 evs)) = Some f ->
+  deserialize crc v (f_data f) = Ok (gen i).
+Proof. exact warm_hit_is_own_code. Qed.
+Print Assumptions C13_warm_hit_is_own_code.
+
+(* the property's last sentence at the level of CompileModule: a truncated entry under the key is reported (nothing is
+   executed, the directory is untouched) ... *)
+Theorem C13_truncated_entry_reported : forall crc (H : list Z -> Z) v gen, crc_ok crc ->
+  forall d i f cm0 e0 k, wf_entry v cm0 -> cm_exec cm0 <> [] -> serialize crc v cm0 = Some e0 -> (k < length e0)%nat ->
+  lookup (Final (file_key H i)) d = Some f -> f_data f = firstn k e0 ->
+  compile crc H v gen d i = (d, CReported).
+Proof. exact truncated_is_reported. Qed.
+Print Assumptions C13_truncated_entry_reported.
+
+(* ... an entry of another version is reported, or discarded and replaced by a fresh compilation of these inputs *)
+Theorem C13_other_version_entry_not_used : forall crc (H : list Z -> Z) v gen, (forall i, wf_entry v (gen i)) ->
+  forall d i f v0 cm0 e0, zlen v0 < 256 -> v0 <> v -> serialize crc v0 cm0 = Some e0 ->
+  lookup (Final (file_key H i)) d = Some f -> f_data f = e0 ->
+  compile crc H v gen d i = (d, CReported) \/
+  (snd (compile crc H v gen d i) = CCompiled (gen i) /\
+   exists f', lookup (Final (file_key H i)) (fst (compile crc H v gen d i)) = Some f' /\ entry_of crc v gen i = Some (f_data f')).
+Proof. exact other_version_not_used. Qed.
+Print Assumptions C13_other_version_entry_not_used.
+
+(* DAMAGED ENTRIES. What ANY accepted byte string looks like (bytes are non-negative numbers): the magic, the length and
+   the bytes of the reader's version, a count equal to the number of offsets delivered, that many offsets, a length equal
+   to the length of the code delivered, the code delivered and its checksum (absent when no code is delivered), at least
+   1 + 16 bytes per source-map pair delivered, the unread rest. *)
+Theorem C13_accepted_shape : forall crc v inp cm r, Forall (fun b => 0 <= b) inp -> deserialize_c crc v inp = ROk cm r ->
+  exists cnt ob lb cbk tl,
+    inp = magic ++ [zlen v] ++ v ++ cnt ++ ob ++ lb ++ cm_exec cm ++ cbk ++ tl ++ r /\
+    zlen cnt = 4 /\ le_dec cnt = zlen (cm_offsets cm) /\ zlen ob = 8 * zlen (cm_offsets cm) /\ zlen lb = 8 /\
+    (cm_exec cm <> [] -> le_dec lb = zlen (cm_exec cm) /\ zlen cbk = 4 /\ le_dec cbk = crc (cm_exec cm)) /\
+    (cm_exec cm = [] -> cbk = []) /\
+    1 + 16 * zlen (cm_sm_wasm cm) <= zlen tl /\ length (cm_sm_wasm cm) = length (cm_sm_exec cm).
+Proof. exact accepted_shape. Qed.
+Print Assumptions C13_accepted_shape.
+
+(* hence: ANY damage to the magic, the version length byte or the version bytes is never accepted *)
+Theorem C13_damaged_header_never_accepted : forall crc v inp cm, Forall (fun b => 0 <= b) inp ->
+  firstn (7 + length v) inp <> magic ++ [zlen v] ++ v -> deserialize crc v inp <> Ok cm.
+Proof. exact damaged_header_never_accepted. Qed.
+Print Assumptions C13_damaged_header_never_accepted.
+
+(* hence: the count, the code length and the number of source-map pairs of an accepted input are bounded by its length
+   (a field damaged to ask for more than the file holds is never accepted) *)
+Theorem C13_accepted_sizes_within_file : forall crc v inp cm, Forall (fun b => 0 <= b) inp -> deserialize crc v inp = Ok cm ->
+  11 + zlen v + 8 * zlen (cm_offsets cm) + 8 + zlen (cm_exec cm) + 1 + 16 * zlen (cm_sm_wasm cm) <= zlen inp.
+Proof. exact accepted_sizes_within_file. Qed.
+Print Assumptions C13_accepted_sizes_within_file.
+
+(* single fields of a laid-out entry (Proofs.CacheExtP.layout; serialize produces this layout: serialize_layout).
+   Detected by construction: the code bytes replaced by others with another checksum ... *)
+Theorem C13_code_damage_rejected : forall crc v offs ex ex' tl, zlen v < 256 -> zlen offs < 2 ^ 32 -> Forall (in_s 64) offs ->
+  0 < zlen ex < 2 ^ 63 -> zlen ex' = zlen ex -> crc_ok crc -> crc ex' <> crc ex ->
+  deserialize crc v (layout v (zlen offs) (offs_bytes offs) (le_enc 8 (zlen ex)) ex' (le_enc 4 (crc ex)) tl) = Error.
+Proof. exact code_damage_rejected. Qed.
+Print Assumptions C13_code_damage_rejected.
+
+(* ... the checksum field replaced by another value ... *)
+Theorem C13_crc_damage_rejected : forall crc v offs ex cb tl, zlen v < 256 -> zlen offs < 2 ^ 32 -> Forall (in_s 64) offs ->
+  0 < zlen ex < 2 ^ 63 -> zlen cb = 4 -> le_dec cb <> crc ex ->
+  deserialize crc v (layout v (zlen offs) (offs_bytes offs) (le_enc 8 (zlen ex)) ex cb tl) = Error.
+Proof. exact crc_damage_rejected. Qed.
+Print Assumptions C13_crc_damage_rejected.
+
+(* ... a count, a code length or a source-map length that asks for more than what follows it in the file *)
+Theorem C13_count_too_large_rejected : forall crc v c R, zlen v < 256 -> 0 <= c < 2 ^ 32 -> zlen R < 8 * c ->
+  deserialize crc v (hdr v c ++ R) = Error.
+Proof. exact count_too_large_rejected. Qed.
+Print Assumptions C13_count_too_large_rejected.
+
+Theorem C13_codelen_too_large_rejected : forall crc v offs lb R, zlen v < 256 -> zlen offs < 2 ^ 32 -> Forall (in_s 64) offs ->
+  zlen lb = 8 -> zlen R < le_dec lb ->
+  deserialize crc v (hdr v (zlen offs) ++ offs_bytes offs ++ lb ++ R) = Error.
+Proof. exact codelen_too_large_rejected. Qed.
+Print Assumptions C13_codelen_too_large_rejected.
+
+Theorem C13_smlen_too_large_rejected : forall offs ex lb R, ex <> [] -> zlen lb = 8 -> zlen R < 16 * le_dec lb ->
+  deser_tail offs ex ([1] ++ lb ++ R) = RError.
+Proof. exact (smlen_too_large_rejected crc32c). Qed.
+Print Assumptions C13_smlen_too_large_rejected.
+
+(* NOT detected (the limits, stated as theorems): the checksum covers the code only. The function offsets of an entry can
+   be replaced by any others: the entry is read as before and delivers the other offsets ... *)
+Theorem C13_limit_offsets_not_protected : forall crc v (offs offs' : list Z) ex tl, zlen v < 256 -> zlen offs < 2 ^ 32 ->
+  length offs' = length offs -> Forall (in_s 64) offs' -> 0 < zlen ex < 2 ^ 63 -> crc_ok crc ->
+  deserialize_c crc v (layout v (zlen offs) (offs_bytes offs') (le_enc 8 (zlen ex)) ex (le_enc 4 (crc ex)) tl) =
+  deser_tail offs' ex tl.
+Proof. exact offsets_not_protected. Qed.
+Print Assumptions C13_limit_offsets_not_protected.
+
+(* ... and a code length of zero switches the checksum off: the bytes of the code are read as source-map flag *)
+Theorem C13_limit_codelen_zero_skips_checksum : forall crc v offs R, zlen v < 256 -> zlen offs < 2 ^ 32 -> Forall (in_s 64) offs ->
+  deserialize_c crc v (hdr v (zlen offs) ++ offs_bytes offs ++ le_enc 8 0 ++ R) = deser_tail offs [] R.
+Proof. exact codelen_zero_skips_checksum. Qed.
+Print Assumptions C13_limit_codelen_zero_skips_checksum.
+
+(* ALLOCATION. [alloc_c v inp] = (bytes of the offsets slice made from the count field, length handed to mmap from the code
+   length field) - both requested before the bytes they announce are read. In proportion on everything the property
+   quantifies over: a complete entry or ANY truncation of it asks for no more than the length of the complete entry ... *)
+Theorem C13_alloc_prefix_bounded : forall crc v cm e k, wf_entry v cm -> serialize crc v cm = Some e ->
+  0 <= fst (alloc_c v (firstn k e)) /\ 0 <= snd (alloc_c v (firstn k e)) /\
+  fst (alloc_c v (firstn k e)) + snd (alloc_c v (firstn k e)) <= zlen e.
+Proof. exact alloc_prefix_bounded. Qed.
+Print Assumptions C13_alloc_prefix_bounded.
+
+(* ... and NOT in proportion on a damaged one (limit): the slice follows the count field whatever the rest of the file is -
+   up to 8 * (2^32 - 1) bytes for a file of any length (CacheExtP.ex_alloc_damaged: 8 GiB for a 99-byte file) *)
+Theorem C13_limit_alloc_follows_count : forall v c R, zlen v < 256 -> 0 <= c < 2 ^ 32 ->
+  fst (alloc_c v (hdr v c ++ R)) = 8 * c.
+Proof. exact (alloc_follows_count crc32c). Qed.
+Print Assumptions C13_limit_alloc_follows_count.
